@@ -387,8 +387,9 @@ impl Run {
         let mut replay_paths = vec![];
         for v in &self.violations {
             let h = hash_str(&format!("{}{}{:?}", v.part, v.failure.msg, v.bytes));
-            let path = format!("{}/replays/{}-{:016x}.json", dir, self.prop, h);
-            let _ = std::fs::create_dir_all(format!("{}/replays", dir));
+            let rdir = std::env::var("CGV_EVIDENCE_DIR").map(|d| format!("{d}/replays")).unwrap_or_else(|_| format!("{}/replays", dir));
+            let path = format!("{}/{}-{:016x}.json", rdir, self.prop, h);
+            let _ = std::fs::create_dir_all(&rdir);
             let doc = json!({
                 "property": self.prop,
                 "part": v.part,
@@ -440,8 +441,11 @@ impl Run {
             "replays": replay_paths,
             "inconclusive": self.broken,
         });
-        let _ = std::fs::create_dir_all(format!("{}/evidence", dir));
-        let path = format!("{}/evidence/{}.json", dir, self.prop);
+        // CGV_EVIDENCE_DIR: used when the checks are pointed at a deliberately broken tree (seeded changes,
+        // self-test), so that the committed evidence keeps describing the unchanged tree
+        let edir = std::env::var("CGV_EVIDENCE_DIR").unwrap_or_else(|_| format!("{}/evidence", dir));
+        let _ = std::fs::create_dir_all(&edir);
+        let path = format!("{}/{}.json", edir, self.prop);
         if let Err(e) = std::fs::write(&path, serde_json::to_string_pretty(&ev).unwrap()) {
             eprintln!("cannot write evidence {path}: {e}");
             if code == 0 {
